@@ -45,6 +45,11 @@ type rot struct {
 	g      guard
 	buf    []byte // one buffer reused (and overwritten) for every Write: the rotator must not keep a reference to it
 	noskip bool
+	// obstacles (faults.go): the log directory is moved aside (to `hidden`, if it existed) and a regular file stands in
+	// its place; the file with index `jam` (-1: none) carries the immutable / append-only inode flag
+	blocked bool
+	hidden  string
+	jam     int
 }
 
 var scratchDir string
@@ -78,6 +83,7 @@ func (a *rot) cleanup() {
 	}
 	a.r = nil
 	if a.root != "" {
+		a.dropObstacles()
 		_ = os.RemoveAll(a.root)
 		a.root = ""
 	}
@@ -433,8 +439,17 @@ func (a *rot) reset(f []string) string {
 	a.dead = false
 	a.k = 0
 	a.opts = nil
-	if len(f) != 3 {
+	a.jam = -1
+	if len(f) != 3 && len(f) != 4 {
 		return "bad-op"
+	}
+	jam := -1
+	if len(f) == 4 {
+		v, perr := strconv.Atoi(strings.TrimPrefix(f[3], "J"))
+		if !strings.HasPrefix(f[3], "J") || perr != nil || v < 0 || strconv.Itoa(v) != f[3][1:] {
+			return "bad-op"
+		}
+		jam = v
 	}
 	root, err := os.MkdirTemp(scratchBase(), "c12-")
 	if err != nil {
@@ -458,6 +473,22 @@ func (a *rot) reset(f []string) string {
 		}
 		return "new=ok defaultpath"
 	}
+	r, err := rotation.New(a.opts...) // touches nothing on disk
+	if err != nil {
+		a.r = nil
+		return "new=err"
+	}
+	jamFound := jam < 0
+	if f[2] != "-" {
+		for _, p := range strings.Split(f[2], ",") {
+			if iv := strings.SplitN(p, ":", 2); len(iv) == 2 && iv[0] == strconv.Itoa(jam) {
+				jamFound = true
+			}
+		}
+	}
+	if !jamFound {
+		return "bad-op"
+	}
 	if f[2] != "-" {
 		if err = os.MkdirAll(filepath.Dir(a.path), 0o755); err != nil {
 			return "mkdir-error"
@@ -475,10 +506,11 @@ func (a *rot) reset(f []string) string {
 			}
 		}
 	}
-	r, err := rotation.New(a.opts...)
-	if err != nil {
-		a.r = nil
-		return "new=err"
+	if jam >= 0 {
+		if err = chflags(fileName(a.path, jam), jamBits(jam), true); err != nil {
+			return "jam-error"
+		}
+		a.jam = jam
 	}
 	a.r = r
 	if r.PathToLog() != a.path {
@@ -499,11 +531,11 @@ func (a *rot) Run(line string) string {
 		return a.reset(f)
 	}
 	switch f[0] {
-	case "w", "close", "reopen", "sync", "obs":
+	case "w", "close", "reopen", "sync", "obs", "wlim", "block", "unblock", "unjam", "breakfd":
 	default:
 		return "bad-op"
 	}
-	if f[0] == "w" && len(f) != 2 {
+	if (f[0] == "w" && len(f) != 2) || (f[0] == "wlim" && len(f) != 3) {
 		return "bad-op"
 	}
 	if a.r == nil {
@@ -515,15 +547,41 @@ func (a *rot) Run(line string) string {
 	r := a.r
 	dir := filepath.Dir(a.path)
 	switch f[0] {
-	case "w":
-		n := hx.Atoi(f[1])
+	case "block":
+		return a.block()
+	case "unblock":
+		return a.unblock()
+	case "unjam":
+		return a.unjam()
+	case "breakfd":
+		// the descriptor the rotator holds is closed behind its back: every later call on it fails (Write with n = 0, Sync,
+		// Close) until the rotator drops the handle
+		f, ok := verifFile(r)
+		if !ok {
+			return "breakfd-unavailable"
+		}
+		if f == nil {
+			return "breakfd=none"
+		}
+		_ = f.Close()
+		return "breakfd=ok"
+	case "w", "wlim":
+		n := hx.Atoi(f[len(f)-1])
 		if cap(a.buf) < n {
 			a.buf = make([]byte, n, n+n/2+16)
 		}
 		b := a.buf[:n]
 		fillRec(b, wBase(a.k))
 		a.k++
+		restore := func() {}
+		if f[0] == "wlim" {
+			var lok bool
+			if restore, lok = limitFileSize(hx.Atoi(f[1])); !lok {
+				return "rlimit-error"
+			}
+		}
 		res, ok := a.g.call(func() wres { n, err := r.Write(b); return wres{n, err} }, dir)
+		restore()
 		if !ok {
 			a.dead = true
 			return "hang"
@@ -531,14 +589,14 @@ func (a *rot) Run(line string) string {
 		for i := range b { // the caller's buffer is its own again: scribble over it before looking at the files
 			b[i] = 0xEE
 		}
-		return fmt.Sprintf("n=%d err=%s | %s", res.n, errStr(res.err), observe(a.path))
+		return fmt.Sprintf("n=%d err=%s | %s", res.n, errStr(res.err), a.obs())
 	case "close":
 		res, ok := a.g.call(func() wres { return wres{0, r.Close()} }, "")
 		if !ok {
 			a.dead = true
 			return "hang"
 		}
-		return "close=" + errStr(res.err) + " | " + observe(a.path)
+		return "close=" + errStr(res.err) + " | " + a.obs()
 	case "reopen":
 		if len(f) > 2 {
 			return "bad-op"
@@ -562,7 +620,7 @@ func (a *rot) Run(line string) string {
 		}
 		a.r = nr
 		a.opts = opts
-		return "new=ok | " + observe(a.path)
+		return "new=ok | " + a.obs()
 	case "sync":
 		res, ok := a.g.call(func() wres { return wres{0, r.Sync()} }, "")
 		if !ok {
@@ -571,15 +629,36 @@ func (a *rot) Run(line string) string {
 		}
 		return "sync=" + errStr(res.err)
 	case "obs":
-		return observe(a.path)
+		return a.obs()
 	}
 	return "bad-op"
 }
 
 func main() {
-	a := &rot{}
+	a := &rot{jam: -1}
 	d := &rotdef{}
-	hx.Main(map[string]hx.Area{"rot": a, "rotdef": d, "stress": &stress{}, "errs": &errArea{}})
+	d.jam = -1
+	ff := &rotf{}
+	ff.jam = -1
+	if len(os.Args) == 2 && os.Args[1] == "probe-fd" { // can the white-box accessor reach the descriptor?
+		r, err := rotation.New(rotation.Path(filepath.Join(os.TempDir(), "c12-probe-never-written")))
+		if err != nil {
+			fmt.Println(false)
+			return
+		}
+		_, ok := verifFile(r)
+		fmt.Println(ok && overlayBuild)
+		return
+	}
+	if len(os.Args) == 2 && os.Args[1] == "probe-faults" { // vlib/C12.py asks whether area rotf can run here
+		fmt.Println(faultsSupported())
+		return
+	}
+	fd := &rotfd{}
+	fd.jam = -1
+	hx.Main(map[string]hx.Area{"rot": a, "rotdef": d, "rotf": ff, "rotfd": fd, "stress": &stress{}, "errs": &errArea{}})
 	a.cleanup()
 	d.cleanup()
+	ff.cleanup()
+	fd.cleanup()
 }
